@@ -90,6 +90,7 @@ def evJ : Ev → Json
   | .after ts row p => .arr #["after", iJ ts, nJ row, oJ p]
   | .opOk ts h m tag => .arr #["ok", iJ ts, hookJ h, nJ m, .str tag]
   | .opRej ts h m tag c => .arr #["rej", iJ ts, hookJ h, nJ m, .str tag, .bool c]
+  | .opFree ts h m tag ok => .arr #["free", iJ ts, hookJ h, nJ m, .str tag, .bool ok]
   | .row ts p => .arr #["row", iJ ts, oJ p]
   | .notify ts tag stamp m => .arr #["notify", iJ ts, .str tag, iJ stamp, nJ m]
   | .finalize ts => .arr #["finalize", iJ ts]
@@ -101,7 +102,8 @@ def natOf (v : Json) : Except String Nat := do
 
 def opOf (v : Json) : Except String OpSpec :=
   match v with
-  | .arr #[m, .bool ok, .str tag] => do pure ⟨← natOf m, ok, tag⟩
+  | .arr #[m, .bool ok, .str tag] => do pure ⟨← natOf m, ok, tag, true⟩
+  | .arr #[m, .bool ok, .str tag, .bool gated] => do pure ⟨← natOf m, ok, tag, gated⟩
   | _ => throw s!"bad op {v.compress}"
 
 def opsOf (v : Json) : Except String (List OpSpec) :=
